@@ -230,7 +230,8 @@ CasesPlace10(lazy) ==
   ELSE {CaseX(<<Place(p[1], pl)>>, NoEnv, "placed", <<Place(p[2], pl)>>) : p \in Pairs10, pl \in Places10}
        \cup {Case(<<Place(b, pl)>>, NoEnv, "bad") : b \in Bad10, pl \in Places10}
 
-Quoted10 == M("id" :> I("1") @@ "foo" :> Single("bar", S("baz")) @@ "404" :> Single("page", S("missing")) @@ "true" :> L(<<S("yes")>>) @@ "null" :> I("0"))
+Quoted10 == M("id" :> I("1") @@ "foo" :> Single("bar", S("baz")) @@ "404" :> Single("page", S("missing")) @@ "true" :> L(<<S("yes")>>) @@ "null" :> I("0")
+               @@ "0" :> S("zero") @@ "" :> S("empty") @@ "a.b" :> S("dotted"))      \* key names that collide with path syntax
 CasesC10(lazy) ==
   CasesChain10(0) \cup CasesPlace10(0) \cup
   {Case(<<DocC10(p[1])>>, NoEnv, "ref") : p \in Pairs10}
@@ -251,7 +252,12 @@ CasesC10(lazy) ==
                     <<L(<<Single("$replace", S("'true'"))>>), L(<<S("yes")>>)>>,
                     <<S("$merge:\"null\""), I("0")>>, <<S("$replace:\"404.page\""), S("missing")>>,
                     <<S("$merge:'nope'"), Null>>, <<S("$merge:404"), Null>>, <<S("$replace:true"), Null>>, <<Single("$merge", S("null")), Null>>,
-                    <<S("$merge:\"404\".page"), Null>> }}
+                    <<S("$merge:\"404\".page"), Null>>,
+                    (* list paths take every entry as ONE key, whatever it looks like *)
+                    <<Single("$replace", L(<<S("0")>>)), S("zero")>>, <<Single("$replace", L(<<S("")>>)), S("empty")>>,
+                    <<Single("$replace", L(<<S("a.b")>>)), S("dotted")>>, <<Single("$replace", L(<<S("404"), S("page")>>)), S("missing")>>,
+                    <<S("$replace:\"0\""), S("zero")>>, <<S("$replace:0"), Null>>, <<S("$replace:a.b"), Null>>,
+                    <<Single("$replace", L(<<I("0")>>)), Null>>, <<Single("$replace", L(<<S("foo"), S("bar"), S("deeper")>>)), Null>> }}
   \cup {CaseX(<<Quoted10, Mk2("id", I("2"), "use", Single("$replace", Mk2("$match", Single("id", I("1")), "$path", S(q[1]))))>>, NoEnv, "quotedcross", q[2])
           : q \in { <<"\"404\"", Single("page", S("missing"))>>, <<"'foo.bar'", S("baz")>>, <<"404", Null>> }}
   (* two documents match; one of them is a $merge host: still ambiguous *)
@@ -705,9 +711,12 @@ PairDoc(rel, a, b) ==
     [] rel = "pairin" -> <<PairCtx %% Single("a", Inside(a, b))>>
     [] rel = "pairref" -> <<PairCtx %% Mk2("a", Frag(a), "z", Mk2("$merge", S("a"), "extra", Frag(b)))>>
     [] rel = "pairlayer" -> <<PairCtx %% Single("a", Frag(a)), Single("a", Frag(b))>>
+    (* the same two documents after a hidden one and around an empty one: positions in the stream do not matter *)
+    [] rel = "pairhidden" -> <<Mk2("$output", False, "id", I("0")), PairCtx %% Mk2("id", I("1"), "a", Frag(a)), EmptyMap,
+                               Mk3("id", I("2"), "b", Frag(b), "c", Single("$replace", Mk2("$match", Single("id", I("1")), "$path", S("a"))))>>
     [] rel = "pairstream" -> <<PairCtx %% Mk2("id", I("1"), "a", Frag(a)),
                                Mk3("id", I("2"), "b", Frag(b), "c", Single("$replace", Mk2("$match", Single("id", I("1")), "$path", S("a"))))>>
-PairRels == {"pairsib", "pairin", "pairref", "pairlayer", "pairstream"}
+PairRels == {"pairsib", "pairin", "pairref", "pairlayer", "pairstream", "pairhidden"}
 (* known findings of the pinned tree are probed by their own checks and left out here: a map-form  *)
 (* $merge of a value that is not a map (c10-host-nonmap), an $output-marked map as a direct list   *)
 (* entry (c11-map-in-list)                                                                         *)
